@@ -2523,6 +2523,11 @@ void tNMEA2000::HandleCommandedAddress(uint64_t CommandedName, unsigned char New
   if ( IsBroadcast(NewAddress) ) return;
   if (Devices[iDev].DeviceInformation.GetName() == CommandedName &&
       Devices[iDev].N2kSource!=NewAddress) { // We have been commanded to set our address
+    // Our own devices do not hear each other on the bus, so an address held by
+    // an other device of this node can not be arbitrated. Do not take it.
+    for (int i=0; i<DeviceCount; i++) {
+      if ( i!=iDev && Devices[i].N2kSource==NewAddress ) return;
+    }
     Devices[iDev].N2kSource=NewAddress;
     Devices[iDev].UpdateAddressClaimEndSource();
     StartAddressClaim(iDev);
